@@ -23,18 +23,32 @@
      - a directory that already exists (because a file was there before, or because a wildcard selected a
        member below it before its own entry) keeps its mode and time: its entry changes nothing
      - links replace whatever non-directory was there; links with absolute or '..' targets are outside
-       the guarantee (ty "unsafe": a link or its placeholder file) *)
+       the guarantee (ty "unsafe": a link or its placeholder file)
+     - owners (optional: item.own = <<uid, gid>> when the header records them, opts.me = the ids the tool runs with, opts.priv = it may give
+       files away): whatever the tool creates belongs to the tool's user; a file whose header records owner ids is handed to them right after
+       it is created (lha_arch_fopen: fchown before fchmod) and a directory when its metadata is applied (set_directory_metadata) - if the
+       system allows it, which it does for a privileged user or when the ids are the tool's own; refusal is ignored.  Links, directories
+       created on the way and placeholder files are never handed over. *)
 EXTENDS Naturals, Sequences, SequencesExt, FiniteSets, Glob
 
 ANY == -1
 ANYT == <<-1>>
-DirNodeX(mode, mtime) == [ty |-> "dir", size |-> 0, crc |-> 0, mtime |-> mtime, mode |-> mode, traw |-> "", live |-> TRUE]
+DirNodeX(mode, mtime, own) == [ty |-> "dir", size |-> 0, crc |-> 0, mtime |-> mtime, mode |-> mode, traw |-> "", live |-> TRUE, own |-> own]
+OwnOf(it) == IF "own" \in DOMAIN it THEN it.own ELSE ANYT
+MeOf(o) == IF "me" \in DOMAIN o THEN o.me ELSE ANYT
+PrivOf(o) == "priv" \in DOMAIN o /\ o.priv
+\* who owns what the entry `it` leaves behind
+Owner(o, it) == IF MeOf(o) = ANYT THEN ANYT
+                ELSE IF OwnOf(it) = ANYT \/ OwnOf(it) = MeOf(o) THEN MeOf(o)
+                ELSE IF PrivOf(o) THEN OwnOf(it)
+                ELSE IF OwnOf(it)[1] = MeOf(o)[1] THEN ANYT      \* own user, other group: allowed exactly if the user is a member of it
+                ELSE MeOf(o)
 Put(t, loc, nd) == [x \in DOMAIN t \cup {loc} |-> IF x = loc THEN nd ELSE t[x]]
 Lower(b) == IF b >= 65 /\ b <= 90 THEN b + 32 ELSE b
 
 \* creates the missing directories above loc, below base (base itself exists)
-WithParents(t, base, loc) ==
-  FoldLeft(LAMBDA a, k : LET d == SubSeq(loc, 1, k) IN IF d \in DOMAIN a THEN a ELSE Put(a, d, DirNodeX(493, ANYT)),
+WithParents(t, base, loc, me) ==
+  FoldLeft(LAMBDA a, k : LET d == SubSeq(loc, 1, k) IN IF d \in DOMAIN a THEN a ELSE Put(a, d, DirNodeX(493, ANYT, me)),
            t, [i \in 1..(IF Len(loc) - 1 > Len(base) THEN Len(loc) - 1 - Len(base) ELSE 0) |-> Len(base) + i])
 
 \* the overwrite decision: [go |-> replace?, policy, answers]
@@ -57,7 +71,7 @@ Ask(policy, ans) ==
 DirPart(pb) == LET sl == {i \in 1..Len(pb) : pb[i] = 47} IN
                IF sl = {} THEN <<>> ELSE SubSeq(pb, 1, CHOOSE i \in sl : \A j \in sl : j <= i)
 BytesPrefix(a, b) == Len(a) <= Len(b) /\ SubSeq(b, 1, Len(a)) = a
-Complete(t, d) == IF d.loc \in DOMAIN t /\ t[d.loc].ty = "dir" THEN Put(t, d.loc, DirNodeX(d.mode, d.mtime)) ELSE t
+Complete(t, d) == IF d.loc \in DOMAIN t /\ t[d.loc].ty = "dir" THEN Put(t, d.loc, DirNodeX(d.mode, d.mtime, d.own)) ELSE t
 \* completes the directories on top of the stack that do not contain the entry whose directory part is dp (dp = <<-1>>: all)
 RECURSIVE PopWhile(_, _, _)
 PopWhile(t, stack, dp) ==
@@ -73,13 +87,14 @@ Step(base, opts, filters, st, it) ==
      ELSE IF opts.flat /\ it.ty = "dir" THEN s1
      ELSE
      LET loc == base \o opts.wd \o (IF opts.flat THEN <<it.comps[Len(it.comps)]>> ELSE it.comps)
-         nd  == [ty |-> it.ty, size |-> it.size, crc |-> it.crc, mtime |-> it.mtime, mode |-> it.mode, traw |-> it.traw, live |-> TRUE]
-         t1  == WithParents(s1.tree, base, loc)
+         nd  == [ty |-> it.ty, size |-> it.size, crc |-> it.crc, mtime |-> it.mtime, mode |-> it.mode, traw |-> it.traw, live |-> TRUE,
+                 own |-> IF it.ty = "file" THEN Owner(opts, it) ELSE IF it.ty = "link" THEN MeOf(opts) ELSE ANYT]
+         t1  == WithParents(s1.tree, base, loc, MeOf(opts))
      IN IF it.ty = "dir"
         THEN IF loc \in DOMAIN s1.tree /\ s1.tree[loc].ty = "dir"
              THEN s1     \* ExistingDirLeftAlone: mkdir fails with EEXIST, the directory keeps its mode and time (extract_directory)
-             ELSE [s1 EXCEPT !.tree = Put(t1, loc, DirNodeX(IF it.hp THEN 448 ELSE 493, ANYT)),
-                             !.stack = <<[loc |-> loc, pb |-> it.pb, mode |-> it.mode, mtime |-> it.mtime]>> \o @]
+             ELSE [s1 EXCEPT !.tree = Put(t1, loc, DirNodeX(IF it.hp THEN 448 ELSE 493, ANYT, MeOf(opts))),
+                             !.stack = <<[loc |-> loc, pb |-> it.pb, mode |-> it.mode, mtime |-> it.mtime, own |-> Owner(opts, it)]>> \o @]
         \* ("exists" is what stat says: a symbolic link counts if it leads somewhere - to a file or to a directory - and then the
         \*  link itself is what gets replaced, never what it points to; a dangling link is replaced without asking)
         \* (a directory where the file belongs also "exists": the question is asked, but whatever the answer a directory is not replaced -
@@ -92,10 +107,11 @@ Step(base, opts, filters, st, it) ==
         ELSE [s1 EXCEPT !.tree = Put(t1, loc, nd)]
 
 ModelTree(base, items, opts, filters, pre, answers) ==
-  LET t0   == FoldLeft(LAMBDA a, p : Put(WithParents(a, base, base \o p.comps), base \o p.comps,
-                                         IF p.ty = "dir" THEN DirNodeX(p.mode, ANYT)
-                                         ELSE IF p.ty = "link" THEN [ty |-> "link", size |-> 0, crc |-> 0, mtime |-> ANYT, mode |-> ANY, traw |-> p.traw, live |-> p.live]
-                                         ELSE [ty |-> "file", size |-> p.size, crc |-> p.crc, mtime |-> ANYT, mode |-> p.mode, traw |-> "", live |-> TRUE]),
+  LET me   == MeOf(opts)       \* (what is there beforehand belongs to the user the tool runs as)
+      t0   == FoldLeft(LAMBDA a, p : Put(WithParents(a, base, base \o p.comps, me), base \o p.comps,
+                                         IF p.ty = "dir" THEN DirNodeX(p.mode, ANYT, me)
+                                         ELSE IF p.ty = "link" THEN [ty |-> "link", size |-> 0, crc |-> 0, mtime |-> ANYT, mode |-> ANY, traw |-> p.traw, live |-> p.live, own |-> me]
+                                         ELSE [ty |-> "file", size |-> p.size, crc |-> p.crc, mtime |-> ANYT, mode |-> p.mode, traw |-> "", live |-> TRUE, own |-> me]),
                        << >>, pre)
       \* (the directory given with w= is created, with its parents, by the first entry extracted into it)
       fin  == FoldLeft(LAMBDA st, it : Step(base, opts, filters, st, it), [tree |-> t0, policy |-> opts.policy, ans |-> answers, stack |-> <<>>], items)
@@ -108,4 +124,5 @@ NodeMatches(x, got) ==
   /\ (x.mtime # ANYT => got.mtime = x.mtime)
   /\ (x.mode # ANY => got.mode = x.mode)
   /\ (x.ty = "link" => got.traw = x.traw)
+  /\ (x.own # ANYT => ("own" \in DOMAIN got /\ got.own = x.own))
 =========================================================================================
